@@ -2,5 +2,6 @@
 from props_table import META  # noqa: F401
 FIX_COMMITS = ["e4b0578 (C04 Stack::push on an over-full stack)", "fef35a5 (C01 IsOdd on negative numbers)",
                "b980257 (C01 binary comparisons consume both operands)", "de29cc6 (C10 TwoPointXo cut points 0..=len)",
-               "6b59011 (C10 Bitstring::crossover_segment out-of-range)"]
+               "6b59011 (C10 Bitstring::crossover_segment out-of-range)",
+               "1ed1c15 (C12 with_uniform_close_probability panicked under debug assertions for > 2^24 choices)"]
 NOT_YET = {}
